@@ -367,3 +367,26 @@ prop(
     ],
     assumptions=["as C17"],
 )
+
+prop(
+    "C07",
+    level="other",
+    design_ref="DESIGN.md section 3, C07",
+    groups=[(["./plugin/input/file"], r"^(\(\*offsetDB\)\.(save|parseLine|parseOptionalLine|parseStreams)|safeSubstring)$"),
+            (["./offset"], r"^\(\*Offset\)\.(Save|saveToTmp)$")],
+    canaries=[("./plugin/input/file", "replay/C07/zz_replay_c07_test.go", "TestVerifReplayC07")],
+    script_canaries=["replay/C07/strace_save.sh"],
+    claim=(
+        "Save protocol proved for every failure pattern of open / write / sync / rename (each may fail on any call): both savers (file input's offsetDB.save and the generic offset.Save of journalctl/dmesg) rename the temporary file over the current one "
+        "at most once and only after it was created, completely written and synced without error - an unsuccessful write never replaces a good file and the snapshot is made durable first (two fixes came out of this). "
+        "Parser: parseLine returns exactly the text between the prefix and the first newline and the rest after it, and fails iff the content is empty / has no newline / lacks the prefix; parseOptionalLine consumes nothing when the prefix is absent; "
+        "parseStreams splits a stream line at the writer's separator whatever characters the stream name contains (':' and ': ' included)."
+    ),
+    undecided=[
+        "'at any instant ... a complete snapshot': crash atomicity rests on POSIX rename atomicity and fsync durability (assumed), the quantifier over crash points is not a contract",
+        "'never ahead of commits': that the snapshot of each job is its offsets table at one lock instant (Job.mu) is read, not yet under a monitor clause; across jobs the snapshot is not simultaneous",
+        "load(save(x)) == x for all tables: the writer is a nested loop of ~20 appends, its grammar is not stated; empty stream names and names containing a newline do not load (by reading) - not decided here",
+        "parseStreams on arbitrary garbage (line[pos+2:] past the end) is outside the statement (assume-safe, listed)",
+    ],
+    assumptions=["os.OpenFile / File.Write / File.Sync / os.Rename may each fail or succeed arbitrarily (callee clauses: pure on the modelled state)", "strings.IndexByte / LastIndexByte lib contracts"],
+)
